@@ -394,6 +394,12 @@ func (e *Env) index(x *IndexE) Val {
 	if p, ok := base.(PtrV); ok {
 		base = fx.loadPtr(e.st, p) // auto-deref pointer to slice/array
 	}
+	if sc, ok := base.(Sc); ok && sc.Typ != nil {
+		if mt, isMap := under(sc.Typ).(*types.Map); isMap {
+			v, _ := e.mapGet(sc, mt, x.I)
+			return v
+		}
+	}
 	i := e.idxT(x.I)
 	switch b := base.(type) {
 	case SliceV:
@@ -569,6 +575,22 @@ func (e *Env) call(x *CallE) Val {
 			c = Lt(bs.T, as.T, true)
 		}
 		return Sc{Ite(c, as.T, bs.T), as.Typ}
+	case "has":
+		// has(m, k): key k is present in map m
+		mv := e.eval(x.Args[0])
+		if p, ok := mv.(PtrV); ok {
+			mv = fx.loadPtr(e.st, p)
+		}
+		sc, ok := mv.(Sc)
+		if !ok || sc.Typ == nil {
+			cfail("has() needs a map")
+		}
+		mt, isMap := under(sc.Typ).(*types.Map)
+		if !isMap {
+			cfail("has() needs a map")
+		}
+		_, present := e.mapGet(sc, mt, x.Args[1])
+		return Sc{present, boolTyp}
 	case "disjoint":
 		a, ok1 := e.eval(x.Args[0]).(SliceV)
 		b, ok2 := e.eval(x.Args[1]).(SliceV)
@@ -816,4 +838,27 @@ func mentions(x Expr, v string) bool {
 		return mentions(x.Val, v) || (x.Var != v && mentions(x.Body, v))
 	}
 	return false
+}
+
+// mapGet reads m[key] in the environment's state: (value, present).
+func (e *Env) mapGet(mv Sc, mt *types.Map, key Expr) (Val, T) {
+	fx := e.fx
+	ks, pn, vl, vn := fx.mapHeaps(mt)
+	kv := e.eval(key)
+	if sc, ok := kv.(Sc); ok && sc.T.Sort != ks[0] && len(ks) == 1 {
+		// untyped literal key
+		if fx.bv {
+			n, _ := isIntLit(sc.T)
+			kv = Sc{BVC(bigInt(n), ks[0].Width()), mt.Key()}
+		}
+	}
+	keys := flat(kv)
+	ph := fx.heap(e.st, pn, SArr(SInt, nestedArr(ks, SBool)))
+	present := And(Not(Eq(mv.T, IntC(0))), selectN(Select(ph, mv.T), keys))
+	var ls []T
+	for i, l := range vl {
+		vh := fx.heap(e.st, vn[i], SArr(SInt, nestedArr(ks, l.Sort)))
+		ls = append(ls, Ite(present, selectN(Select(vh, mv.T), keys), fx.zeroOfSort(l.Sort)))
+	}
+	return fx.build(mt.Elem(), ls), present
 }
